@@ -15,6 +15,8 @@
 (***************************************************************************)
 EXTENDS HttpGateProps, Json, SequencesExt
 
+CONSTANT FlavourCross \* TRUE: include the supply-path cases
+
 VARIABLES cs, stage, rq, resp
 vars == <<cs, stage, rq, resp>>
 
@@ -36,10 +38,25 @@ Cases ==
         ApplicableAll(BasePath(Tpl(c.t)), c.sps)} \cup
     (IF HdrCross THEN [m : Methods, t : TplNames, sps : {<<"exact">>}, w : BOOLEAN, h : HdrClasses, mode : Modes] ELSE {})
 
+\* the supply path: the deployed router obtained through every flavour's real constructor from the
+\* flavour's real Config, for everything the operator can write for HTTPReadOnly; w = what the
+\* operator configured (that is what the property is judged with)
+FlavourCases ==
+    IF ~FlavourCross THEN {} ELSE
+    {c \in [m : Methods, t : TplNames, sps : {<<a>> : a \in Spellings}, h : {DefaultHdr},
+            flavour : Flavours, cfg : {"unset", "true", "false"}] :
+        ApplicableAll(BasePath(Tpl(c.t)), c.sps)}
+
+IsFlavour(c) == "flavour" \in DOMAIN c
+JudgedW(c) == IF IsFlavour(c) THEN ConfiguredWrite(c.flavour, c.cfg) ELSE c.w
+EffectiveW(c) == IF IsFlavour(c) THEN FlavourWrite(c.flavour, c.cfg) ELSE c.w
+StackOf(c) == IF IsFlavour(c) THEN "server" ELSE c.mode.stack
+UiOf(c) == IF IsFlavour(c) THEN FALSE ELSE c.mode.ui
+
 Init ==
-    /\ cs \in Cases
+    /\ cs \in Cases \cup FlavourCases
     /\ stage = "outer"
-    /\ rq = MkRq(cs.m, PathOf(cs), cs.w, cs.h, cs.mode.stack, cs.mode.ui)
+    /\ rq = MkRq(cs.m, PathOf(cs), EffectiveW(cs), cs.h, StackOf(cs), UiOf(cs))
     /\ resp = NoResp
 
 Next ==
@@ -50,10 +67,10 @@ Next ==
 Spec == Init /\ [][Next]_vars
 
 \* property layer on the code-shaped spec ------------------------------------------------
-GateInv == stage = "done" => C18_Gate(cs.w, resp.effect)
+GateInv == stage = "done" => C18_Gate(JudgedW(cs), resp.effect)
 LiveInv == stage = "done" => C18_Live(cs.m, cs.t, cs.sps, resp.effect)
 \* one decision per request (findOperation ranges over a Go map)
-DetInv == stage = "outer" => Cardinality(Serve(cs.m, PathOf(cs), cs.w, cs.h, cs.mode.stack, cs.mode.ui)) = 1
+DetInv == stage = "outer" => Cardinality(Serve(cs.m, PathOf(cs), EffectiveW(cs), cs.h, StackOf(cs), UiOf(cs))) = 1
 \* the gate and the dispatcher agree: whatever reaches a handler was let through by the
 \* middleware for that very operation
 AgreeInv == stage = "handler" =>
@@ -62,8 +79,10 @@ AgreeInv == stage = "handler" =>
 \* generation -----------------------------------------------------------------------------
 EmitInv ==
     stage = "outer" =>
-        PrintT(<<"CASE", ToJson([m |-> cs.m, t |-> cs.t, sps |-> cs.sps, w |-> cs.w, h |-> cs.h, stack |-> cs.mode.stack, ui |-> cs.mode.ui,
+        PrintT(<<"CASE", ToJson([m |-> cs.m, t |-> cs.t, sps |-> cs.sps, w |-> JudgedW(cs), h |-> cs.h, stack |-> StackOf(cs), ui |-> UiOf(cs),
+                                 flavour |-> (IF IsFlavour(cs) THEN cs.flavour ELSE "direct"),
+                                 cfg |-> (IF IsFlavour(cs) THEN cs.cfg ELSE "-"),
                                  target |-> Target(PathOf(cs)),
                                  raw |-> RawSegs(PathOf(cs)), dec |-> DecSegs(PathOf(cs)),
-                                 exp |-> SetToSeq(Serve(cs.m, PathOf(cs), cs.w, cs.h, cs.mode.stack, cs.mode.ui))])>>)
+                                 exp |-> SetToSeq(Serve(cs.m, PathOf(cs), EffectiveW(cs), cs.h, StackOf(cs), UiOf(cs)))])>>)
 =============================================================================
